@@ -497,6 +497,11 @@ impl World {
     }
 
     /// Run an async block to completion on the world's runtime (virtual time auto-advances).
+    /// Number of tasks alive on this world's runtime.
+    pub fn alive_tasks(&self) -> usize {
+        self.holder.rt.as_ref().map_or(0, |rt| rt.metrics().num_alive_tasks())
+    }
+
     pub fn block_on<F: Future>(&self, f: F) -> F::Output {
         self.holder.rt.as_ref().unwrap().block_on(f)
     }
